@@ -62,6 +62,8 @@ def C08():
     chk.units = [u.name for u in units]
     ents = r_grd.run(chk, units)
     chk.floor("R-GRD.a", len(ents), 14, "entry points with >=2 grid-carrying inputs")
+    nf = r_grd.forwarding(chk, units + [F.load("cases_off")])
+    chk.floor("R-GRD.fwd", nf, 4, "member operators of compound operators")
     # (d) the comparison used by the guards is logical grid equality, symmetric, for every way two grids can
     # differ; and the refusing operations throw / leave operands unchanged on representative placements
     from . import r_reg
@@ -77,10 +79,12 @@ def C08():
     jobs = [("bsv.r_reg_spl", "arithmetic_suite", dict(nmax=4, order_pairs=(pr,), ns=[], fixed=True))
             for pr in ((1, 1), (2, 1), (0, 2))]
     jobs += _jobs("r_reg_spl", "lincomb_suite", [3], nmax=3)
+    jobs += _jobs("r_reg_spl", "arithmetic_suite", [3, 4], nmax=4, order_pairs=((1, 1),))[:-1]   # incl. equal grids held
+    #                                                                                in distinct objects
     tot += r_reg.run_jobs(chk, u, "R-REG.refuse", jobs)
     chk.note("regions_evaluated", tot)
     from . import controls
-    controls.require(chk, ['R-GRD.a', 'R-GRD.c'])
+    controls.require(chk, ['R-GRD.a', 'R-GRD.c', 'R-GRD.fwd'])
     return chk
 
 
@@ -140,6 +144,22 @@ REG_ASSUME = ("small-model argument: index code only compares its integer inputs
 
 def _reg_unit_names():
     return ["dbl_off", "dbl_on"] if C.tier() == "thorough" else ["dbl_off"]
+
+
+def _expr_ownership(chk, fwd=False):
+    """Operators / forms own their operands: no reference members, no reference handed out to a dying object, no
+    by-value API turned into a by-reference one; compound operators forward to every member operator."""
+    from . import r_own as _ro, r_grd as _rg, controls as _ct
+    units = _lib_units(["cases_off"])
+    _ro.expression_members(chk, units)
+    _ro.returned_references(chk, units)
+    _ro.api_returns(chk, units)
+    need = ["R-OWN.field", "R-LIFE.ret", "R-API.ret"]
+    if fwd:
+        n = _rg.forwarding(chk, units)
+        chk.floor("R-GRD.fwd", n, 4, "member operators of compound operators")
+        need.append("R-GRD.fwd")
+    _ct.require(chk, need)
 
 
 def _stateless(chk, extra_units=()):
@@ -290,6 +310,7 @@ def C04():
                 "interval's two end points; exactly zero where n exceeds the degree. Falling-factorial and binomial "
                 "values are not decided.")
     chk.trust(*REG_TRUST)
+    _expr_ownership(chk)   # the result of applying an operator is an independent value
     _stateless(chk)   # first: a later engine leaving the fragment must not hide it
     chk.assume(*REG_ASSUME)
     nmax = 6 if C.tier() == "thorough" else 4
@@ -317,6 +338,8 @@ def C05():
                 "expression prescribes; a spline factor acts as zero outside its own intervals. Signs, operator "
                 "order inside one dependence class and numeric values are not decided.")
     chk.trust(*REG_TRUST)
+    from . import r_own as _ro, controls as _ct
+    _expr_ownership(chk, fwd=True)
     _stateless(chk)   # first: a later engine leaving the fragment must not hide it
     chk.assume(*REG_ASSUME)
     nmax = 5 if C.tier() == "thorough" else 4
@@ -348,6 +371,8 @@ def C06():
                 "interval's width, and be exactly zero when no interval is shared. The Horner kernel's numeric "
                 "result is not decided.")
     chk.trust(*REG_TRUST)
+    from . import r_own as _ro, controls as _ct
+    _expr_ownership(chk)
     _stateless(chk)   # first: a later engine leaving the fragment must not hide it
     chk.assume(*REG_ASSUME)
     nmax = 5 if C.tier() == "thorough" else 4
@@ -371,6 +396,8 @@ def C07():
                 "interval's width; exactly zero for an interval-free spline. Agreement with the bilinear form's "
                 "numeric value is not decided.")
     chk.trust(*REG_TRUST)
+    from . import r_own as _ro, controls as _ct
+    _expr_ownership(chk)
     _stateless(chk)   # first: a later engine leaving the fragment must not hide it
     chk.assume(*REG_ASSUME)
     nmax = 6 if C.tier() == "thorough" else 4
@@ -460,6 +487,7 @@ def C20():
     _ro.lifetimes(chk, units)
     _ro.invalidation(chk, units)
     _ro.frozen_statics(chk, units)
+    _ro.returned_references(chk, units)
     # library rules on what the examples instantiate
     chk.rule("R-GRD.a", "grid guard must-pass-through on the library instantiations created by the examples")
     ents = r_grd.run(chk, units)
@@ -470,7 +498,8 @@ def C20():
     if nfun < 15:
         raise AnalysisBroken("only %d example functions parsed" % nfun)
     from . import controls
-    controls.require(chk, ['R-EX', 'R-OPT', 'R-GRD.a', 'R-OWN.field', 'R-LIFE', 'R-LIFE.inval', 'R-EFF.frozen'])
+    controls.require(chk, ['R-EX', 'R-OPT', 'R-GRD.a', 'R-OWN.field', 'R-LIFE', 'R-LIFE.inval', 'R-EFF.frozen',
+                            'R-LIFE.ret'])
     return chk
 
 
@@ -531,12 +560,14 @@ def C09():
     r_own.field_types(chk, units)
     r_own.lifetimes(chk, units + _example_units())
     r_own.invalidation(chk, units + _example_units())
+    r_own.returned_references(chk, units + _example_units())
+    r_own.api_returns(chk, units)
     r_inv.grid_move(chk, units)
     chk.floor("R-REG.ub", chk.rules["R-REG.ub"]["instances"], 100, "(function, clause) obligations")
     # (no floor on R-OPT sites: a refactoring may legitimately remove optionals; the positive controls keep
     #  the rule from passing vacuously)
     from . import controls
-    controls.require(chk, ['R-OPT', 'R-OWN.field', 'R-LIFE', 'R-LIFE.inval'])
+    controls.require(chk, ['R-OPT', 'R-OWN.field', 'R-LIFE', 'R-LIFE.inval', 'R-LIFE.ret', 'R-API.ret'])
     return chk
 
 
@@ -639,6 +670,8 @@ def C14():
     r_own.field_types(chk, units)
     r_own.interface_shape(chk, units)
     r_own.commit_last(chk, units)
+    r_own.api_returns(chk, units)
+    r_own.returned_references(chk, units)
     r_grd.run(chk, units)
     nsmall = 4 if C.tier() == "thorough" else 3
     lib, cases = _broad_jobs(nsmall)
@@ -652,7 +685,8 @@ def C14():
     chk.floor("R-OWN.iface", chk.rules["R-OWN.iface"]["instances"], 60, "public functions")
     chk.floor("R-OWN.field", chk.rules["R-OWN.field"]["instances"], 10, "data members")
     from . import controls
-    controls.require(chk, ['R-OWN.mutable', 'R-OWN.cast', 'R-OWN.field', 'R-OWN.iface', 'R-OWN.commit', 'R-GRD.a'])
+    controls.require(chk, ['R-OWN.mutable', 'R-OWN.cast', 'R-OWN.field', 'R-OWN.iface', 'R-OWN.commit', 'R-GRD.a',
+                            'R-API.ret', 'R-LIFE.ret'])
     return chk
 
 
